@@ -12,7 +12,7 @@ from ..oracles import gap_tol, minimal_masks, popcount, ref_gap
 ID = "C13"
 LEVEL = "exploration"
 SOLVER_NAMES = ("greedy", "greedy_worst", "largest", "random")
-RULE = ("(A) Hypothesis: environment states reached by a drawn reveal prefix (n=4,5) and ALL states of n=3, each with step budgets none / last permitted move / some left / used up, hidden games from "
+RULE = ("(A) Hypothesis: environment states reached by a drawn reveal prefix (n=4,5) and ALL states of n=3, each with step budgets none / last permitted move / some left / used up, followed by a drawn walk of further steps and unsteps during which the SAME solver objects are asked again (one reset window), hidden games from "
         "asymmetric sources (harness superadditive/SAM constructions, noisy factory, XOS, graph families) so that rewards differ "
         "between actions; each registered solver: public snapshot (table, steps_taken, state, reward, done, mask, hidden game) "
         "identical before/after next_step; action valid; greedy = lowest index among actions whose own-computed immediate reward "
@@ -84,7 +84,8 @@ def check_case(case: dict) -> Result:
         for r in range(0, nexp):
             for prefix in itertools.permutations(range(nexp), r):
                 for budget in (None, r + 1, r + 2):
-                    one = _check_state({**case, "prefix": list(prefix), "cfg": {**case["cfg"], "budget": budget}})
+                    one = _check_state({**case, "prefix": list(prefix), "cfg": {**case["cfg"], "budget": budget},
+                                        "walk": case.get("walk") or [1, 1, 0, 2, 1]})
                     count += 1
                     total.nontrivial = total.nontrivial or one.nontrivial
                     total.labels = one.labels
@@ -97,6 +98,8 @@ def check_case(case: dict) -> Result:
 
 
 def _check_state(case: dict) -> Result:
+    """One reset window: the same solver objects (after_reset called once, as the Solver protocol prescribes) are asked at the
+    state after the reveal prefix and then at every state of a drawn walk of further steps AND unsteps."""
     from incomplete_cooperative.run.model import ModelInstance
     from incomplete_cooperative.solvers import SOLVERS
     from .. import libgames
@@ -106,54 +109,80 @@ def _check_state(case: dict) -> Result:
     env, _ = _mk_env(cfg)
     v = libgames.spec_values(cfg["games"][1 % len(cfg["games"])])   # constructor draws game 0, its reset() draws game 1
     explorable = [s for s in range(1 << n) if s not in minimal_masks(n)]
+    inst = ModelInstance(number_of_players=n, seed=case.get("seed", 1))
+    solvers = {name: SOLVERS[name](inst) for name in case["solvers"]}
+    for solver in solvers.values():
+        solver.after_reset(env)
+    revealed: list[int] = []
     for a in case["prefix"]:
         env.step(a)
-    K = minimal_masks(n) | {explorable[a] for a in case["prefix"]}
-    valid = [i for i in range(len(explorable)) if explorable[i] not in K]
-    if not valid:
-        res.label("no-valid-action")
-        return res
-    rewards = _own_rewards(cfg, v, K, explorable, valid)
-    inst = ModelInstance(number_of_players=n, seed=case.get("seed", 1))
-    for name in case["solvers"]:
-        solver = SOLVERS[name](inst)
-        solver.after_reset(env)
-        before = _snapshot(env)
-        action = solver.next_step(env)
-        after = _snapshot(env)
-        w = f"{name} at prefix {case['prefix']}"
-        diff = [k for k in before if before[k] != after[k]]
-        if diff:
-            res.fail(f"env-modified :: {w}: next_step changed {diff}")
-        if action not in valid:
-            res.fail(f"invalid-action :: {w}: returned {action!r}, valid {valid}")
+        revealed.append(a)
+    any_differ = False
+    sizes_seen = False
+    visited = 0
+    walk = [None] + list(case.get("walk", []))
+    for wi, w_op in enumerate(walk):
+        if w_op is not None:
+            valid_now = [i for i in range(len(explorable)) if i not in revealed]
+            if w_op % 2 == 0 and len(valid_now) > 1:
+                a = valid_now[(w_op // 2) % len(valid_now)]
+                env.step(a)
+                revealed.append(a)
+            elif revealed:
+                a = revealed.pop((w_op // 2) % len(revealed))
+                env.unstep(a)
+            else:
+                continue
+        K = minimal_masks(n) | {explorable[a] for a in revealed}
+        valid = [i for i in range(len(explorable)) if explorable[i] not in K]
+        if not valid:
+            res.label("no-valid-action")
             continue
-        action = int(action)
-        if name in ("greedy", "greedy_worst"):
-            best = (max if name == "greedy" else min)(rewards.values())
-            want = min(a for a in valid if rewards[a] == best)
-            if rewards[action] != best:
-                res.fail(f"{name}-not-optimal :: {w}: chose {action} with reward {rewards[action]!r}, {'max' if name == 'greedy' else 'min'} is {best!r} (rewards {rewards})")
-            elif action != want:
-                res.fail(f"{name}-tie-not-lowest :: {w}: chose {action}, lowest index attaining {best!r} is {want}")
-        elif name == "largest":
-            big = max(popcount(explorable[a]) for a in valid)
-            want = min(a for a in valid if popcount(explorable[a]) == big)
-            if popcount(explorable[action]) != big:
-                res.fail(f"largest-not-largest :: {w}: chose coalition {explorable[action]} of size {popcount(explorable[action])}, largest unknown size {big}")
-            elif action != want:
-                res.fail(f"largest-tie-not-lowest :: {w}: chose {action}, lowest index of size {big} is {want}")
-        else:
-            again = SOLVERS[name](ModelInstance(number_of_players=n, seed=case.get("seed", 1)))
-            if again.next_step(env) != action:
-                res.fail(f"random-not-reproducible :: {w}: equal seed and state gave a different action")
-    differ = len(set(rewards.values())) > 1 and len(valid) >= 2
-    sizes = {popcount(explorable[a]) for a in valid}
-    res.nontrivial = differ and (len(sizes) >= 2 or "largest" not in case["solvers"] or n == 3)
+        visited += 1
+        rewards = _own_rewards(cfg, v, K, explorable, valid)
+        where = f"state {sorted(revealed)} (visit {wi} of one reset window)"
+        for name, solver in solvers.items():
+            before = _snapshot(env)
+            action = solver.next_step(env)
+            after = _snapshot(env)
+            w = f"{name} at {where}"
+            diff = [k for k in before if before[k] != after[k]]
+            if diff:
+                res.fail(f"env-modified :: {w}: next_step changed {diff}")
+            if action not in valid:
+                res.fail(f"invalid-action :: {w}: returned {action!r}, valid {valid}")
+                continue
+            action = int(action)
+            if name in ("greedy", "greedy_worst"):
+                best = (max if name == "greedy" else min)(rewards.values())
+                want = min(a for a in valid if rewards[a] == best)
+                if rewards[action] != best:
+                    res.fail(f"{name}-not-optimal :: {w}: chose {action} with reward {rewards[action]!r}, {'max' if name == 'greedy' else 'min'} is {best!r} (rewards {rewards})")
+                elif action != want:
+                    res.fail(f"{name}-tie-not-lowest :: {w}: chose {action}, lowest index attaining {best!r} is {want}")
+            elif name == "largest":
+                big = max(popcount(explorable[a]) for a in valid)
+                want = min(a for a in valid if popcount(explorable[a]) == big)
+                if popcount(explorable[action]) != big:
+                    res.fail(f"largest-not-largest :: {w}: chose coalition {explorable[action]} of size {popcount(explorable[action])}, largest unknown size {big}")
+                elif action != want:
+                    res.fail(f"largest-tie-not-lowest :: {w}: chose {action}, lowest index of size {big} is {want}")
+            elif wi == 0:
+                again = SOLVERS[name](ModelInstance(number_of_players=n, seed=case.get("seed", 1)))
+                if again.next_step(env) != action:
+                    res.fail(f"random-not-reproducible :: {w}: equal seed and state gave a different action")
+        if res.failures:
+            break
+        if len(set(rewards.values())) > 1 and len(valid) >= 2:
+            any_differ = True
+        if len({popcount(explorable[a]) for a in valid}) >= 2:
+            sizes_seen = True
+    res.nontrivial = any_differ and (sizes_seen or "largest" not in case["solvers"] or n == 3)
     res.label(f"n={n}", f"comp={cfg['computer']}", f"gap={cfg['gap']}", "src=" + cfg["games"][0].get("how", "?").split("(")[0])
     b = cfg.get("budget")
     res.label("budget=" + ("none" if b is None else "last-move" if b == len(case["prefix"]) + 1 else "used-up" if b <= len(case["prefix"]) else "some-left"))
-    if differ:
+    res.label(f"states-visited={min(visited, 6)}")
+    if any_differ:
         res.label("rewards-differ")
     return res
 
@@ -292,7 +321,8 @@ def state_cases(draw, n_min: int, n_max: int):
     # step budgets: none, exactly one move left (the last permitted move), a few left, already used up
     budget = draw(st.sampled_from([None, None, len(prefix) + 1, len(prefix) + 1, len(prefix) + 2, len(prefix) + 3, max(1, len(prefix))]))
     return {"kind": "state", "cfg": {"n": n, "games": games, "computer": comp, "gap": draw(st.sampled_from(["exploitability", "l1_norm", "l2_norm", "linf_norm"])), "budget": budget},
-            "prefix": prefix, "solvers": list(SOLVER_NAMES), "seed": draw(st.integers(0, 10**6))}
+            "prefix": prefix, "solvers": list(SOLVER_NAMES), "seed": draw(st.integers(0, 10**6)),
+            "walk": draw(st.lists(st.integers(0, 63), max_size=5))}
 
 
 @st.composite
@@ -324,7 +354,7 @@ def _sample(case):
 
 def plan(tier: str) -> list[dict]:
     if tier == "quick":
-        return ([{"mode": "states", "n_min": 4, "n_max": 5, "examples": 100, "cost": 4} for _ in range(4)]
+        return ([{"mode": "states", "n_min": 4, "n_max": 5, "examples": 60, "cost": 4} for _ in range(5)]
                 + [{"mode": "n3", "examples": 8, "cost": 3}]
                 + [{"mode": "expected", "n_max": 4, "examples": 5, "procs": [1, 2], "cost": 6} for _ in range(3)])
     return ([{"mode": "states", "n_min": 4, "n_max": 5, "examples": 400, "cost": 10} for _ in range(8)]
